@@ -156,6 +156,38 @@ def h_retransmit(ctx, rtx, nlost, wire=False):
     ctx.observe("n", len(sent))
 
 
+def h_send_rtx(ctx, order):
+    """RTCRtpSender.send(): the RTX payload type used for retransmissions is the rtx entry whose
+    apt names the codec being sent (codecs[0]), whatever the order of the negotiated codec list."""
+    from aiortc.rtcrtpparameters import RTCRtcpParameters, RTCRtpSendParameters
+
+    pts = [ctx.int("pt%d" % i, 96, 127) for i in range(4)]
+    for i in range(4):
+        for j in range(i):
+            ctx.assume(pts[i] != pts[j], "payload types are distinct")
+    base0 = RTCRtpCodecParameters(mimeType="video/VP8", clockRate=90000, payloadType=pts[0])
+    base1 = RTCRtpCodecParameters(mimeType="video/H264", clockRate=90000, payloadType=pts[1])
+    rtx0 = RTCRtpCodecParameters(mimeType="video/rtx", clockRate=90000, payloadType=pts[2], parameters={"apt": pts[0]})
+    rtx1 = RTCRtpCodecParameters(mimeType="video/rtx", clockRate=90000, payloadType=pts[3], parameters={"apt": pts[1]})
+    pool = {"b1": base1, "x0": rtx0, "x1": rtx1}
+    codecs = [base0] + [pool[k] for k in order]
+    tr = _Tr()
+    tr._register_rtp_sender = lambda sender, parameters: None
+    stub = StubAsyncio(_real_asyncio)
+    with Patch(sendmod, asyncio=stub):
+        s = RTCRtpSender("video", tr)
+        sx.run(s.send(RTCRtpSendParameters(codecs=codecs, rtcp=RTCRtcpParameters(cname="c", ssrc=SSRC), muxId="0")))
+    for coro in stub.queue:
+        coro.close()
+    ctx.reach("send-configured")
+    got = s._RTCRtpSender__rtx_payload_type
+    if "x0" in order:
+        ctx.check(sx.eq(got, pts[2]), "rtx-payload-type-is-the-one-whose-apt-names-the-sent-codec")
+    else:
+        ctx.check(got is None, "no-rtx-without-a-matching-apt")
+    ctx.observe("has", got is not None)
+
+
 # --------------------------------------------------------------------------------- closed loop
 class _Track:
     kind = "video"
@@ -333,6 +365,7 @@ STUBS = [
 HARNESSES = {
     "nack-step": Harness("nack-step", h_nack_step, lambda tier: [{"nmissing": n, "near": nr} for n in ((0, 1, 2) if tier == "quick" else (0, 1, 2, 3)) for nr in (False, True)], style="STEP", bounds="max_seq symbolic (also constrained near the wrap), <=2 (quick) / <=3 missing numbers anywhere in the 128-window, new packet from 130 behind to 8 ahead", encoded=ENC, stubs=STUBS, twin="nack-added", opts={"samples": 1}),
     "nack-jump": Harness("nack-jump", h_nack_jump, lambda tier: [{"jump": j} for j in ((129, 1000) if tier == "quick" else (129, 1000, 32767))], style="STEP (targeted, concrete size)", bounds="jumps of 129, 1000 (and 32767) sequence numbers from a symbolic max_seq", encoded=ENC, stubs=STUBS, twin="jumped", opts={"path_timeout_s": 300, "max_decisions": 200000}),
+    "send-rtx": Harness("send-rtx", h_send_rtx, lambda tier: [{"order": list(o)} for o in (("x0",), ("b1", "x1", "x0"), ("x1", "b1", "x0"), ("b1", "x1"), ("x0", "b1", "x1"))], style="STEP", bounds="negotiated codec lists VP8 + {H264, rtx(apt VP8), rtx(apt H264)} in 5 orders, all payload types symbolic 96..127 and distinct", encoded=ENC + ["aiortc.rtcrtpsender:RTCRtpSender.send"], stubs=STUBS, twin="send-configured", opts={"samples": 1}),
     "retransmit": Harness("retransmit", h_retransmit, lambda tier: [{"rtx": x, "nlost": n} for x in (False, True) for n in ((1, 2) if tier == "quick" else (1, 2, 3))] + [{"rtx": False, "nlost": n, "wire": True} for n in ((2,) if tier == "quick" else (2, 3))], style="STEP", bounds="history of 3 packets at a symbolic origin; NACK listing <=2 (quick) / <=3 numbers from 2 before to 130 after the origin; RTX on/off; plus the same NACK serialised and parsed (ascending list from 20 before the history, steps 1..40)", encoded=ENC, stubs=STUBS, twin="nack-handled", opts={"samples": 1}),
     "loop": Harness(
         "loop",
